@@ -241,3 +241,40 @@ func VerifC14MirrorMeta() {
 	ba, _ := Compare(b, a)
 	vCheckMirror(ab, ba)
 }
+
+func init() {
+	vRegister("VerifC14MirrorArrayParam", VerifC14MirrorArrayParam)
+	vRegister("VerifC14MirrorHeader", VerifC14MirrorHeader)
+}
+
+func VerifC14MirrorArrayParam() {
+	a, b := vMakeArrDef("a"), vMakeArrDef("b")
+	vCover("built")
+	ab, _ := Compare(vSpecWithParams(a.param()), vSpecWithParams(b.param()))
+	ba, _ := Compare(vSpecWithParams(b.param()), vSpecWithParams(a.param()))
+	vCheckMirror(ab, ba)
+}
+
+// response headers: present/absent on each side, numeric bound on each side
+func VerifC14MirrorHeader() {
+	mk := func(tag string) *spec.Swagger {
+		op := &spec.Operation{}
+		op.Responses = &spec.Responses{}
+		r := spec.Response{}
+		r.Description = "ok"
+		if vBool2(tag + ".hasHeader") {
+			h := spec.Header{}
+			h.Type = "integer"
+			mx := vF64(tag + ".max")
+			h.Maximum = vMaybeNil(vBool(tag+".noMax"), &mx)
+			r.Headers = map[string]spec.Header{"X-Rate": h}
+		}
+		op.Responses.StatusCodeResponses = map[int]spec.Response{200: r}
+		return vSpecWithOp("/a", op)
+	}
+	a, b := mk("a"), mk("b")
+	vCover("built")
+	ab, _ := Compare(a, b)
+	ba, _ := Compare(b, a)
+	vCheckMirror(ab, ba)
+}
